@@ -243,6 +243,25 @@ int main(int argc, char** argv)
         if(phase == 0 && od.d[0] == 9 && od.d[1] == 5) vf::sample(cs, 2);
       }
     }
+    // every byte value at every position of two well-formed groups, and every pair of byte values in the last two positions
+    // (padding logic): a table lookup guarded by a range test is wrong for whole ranges of bytes, not for sampled ones
+    for(int phase = 0; phase < 2; ++phase)
+    {
+      vf::Odometer od(256, phase == 0 ? 1 : 2, phase == 0 ? 1 : 2);
+      while(od.next()) for(int pos = 0; pos < (phase == 0 ? 8 : 1); ++pos)
+      {
+        if(!sh.take()) continue;
+        std::string b = "QUJDREVG";
+        if(phase == 0) b[pos] = (char)od.d[0]; else { b[6] = (char)od.d[0]; b[7] = (char)od.d[1]; }
+        std::string cs = "base64 byte sweep " + vf::hex(b);
+        vf::crumb("base64", sh.token(), cs);
+        if((n++ & 0x3ff) == 0) vf::watchdog_arm(20000);
+        String in(b.data(), b.size());
+        String out = String::fromBase64(in);
+        vf::hit("base64_arbitrary");
+        if(out.length() > 6) vf::violation("C18:base64:length", cs, "decoded more bytes than the input can hold");
+      }
+    }
   }
   vf::watchdog_disarm();
   vf::emit_counters();
